@@ -36,6 +36,18 @@ let run toks =
        | Some b -> "ok " ^ hex_of_bytes b
        | None -> "none")
   | ["wf"] -> if wf2 schema x then "ok true" else "ok false"
+  (* wfwhy: which instances fail which part of wf2 (diagnostics for the evidence) *)
+  | ["wfwhy"] ->
+      let bad = ref [] in
+      List.iteri (fun i d ->
+        let t = nat_of_int i in
+        if not (tydef_ok2 schema x t d) then bad := (string_of_int i ^ ":side-info") :: !bad;
+        (match d, dflt schema t with
+         | TPrim PNoTL1, _ -> ()
+         | _, None -> bad := (string_of_int i ^ ":no-finite-default") :: !bad
+         | _ -> ())) schema;
+      if not (wf_schema schema) then bad := "tl1-wf" :: !bad;
+      "ok " ^ (if !bad = [] then "-" else String.concat "," (List.rev !bad))
   (* rw2 <tid> <name> <hex>: read TL2, then write back what was read *)
   | ["rw2"; t; _name; h] ->
       let b = bytes_of_hex h in
